@@ -1,6 +1,6 @@
 // C20: finite integrand values whose squares overflow make the adjustment data infinite and the refined channel weights NaN; the two
 // verbose callback modes then converted calls x NaN to std::size_t in multi_channel_weight_info (undefined behaviour; reported by
-// -fsanitize=float-cast-overflow).  Exit 0 when all four modes finish and return the same checkpoint.  Before e9e6178 the sanitizer
+// -fsanitize=float-cast-overflow).  Exit 0 when all four modes finish and return the same checkpoint.  Before 3691bf1 the sanitizer
 // build aborts in the verbose modes.
 //   g++ -std=c++11 -O1 -fsanitize=undefined,float-cast-overflow -fno-sanitize-recover=all -I /repo/include C20_nan_weight_summary.cpp && ./a.out > /dev/null
 #include "hep/mc.hpp"
